@@ -309,7 +309,8 @@ def writeContainer (u : Option String) (c : LContainer) : LoadM XmlNode := do
 def toXml (d : LDef) : LoadM XmlNode := do
   -- `xtce_schema_uri`: the namespace the prefix (or the default namespace) denotes; none = no namespace at all
   let u : Option String := (d.nsmap.find? (·.1 == d.nsPrefix)).map (·.2)
-  let date ← match d.date with | some x => pure x | none => throw Err.unsupported
+  -- `self.date or datetime.now().isoformat()`: an absent *or empty* date is replaced by the clock's
+  let date ← match d.date with | some x => if x.isEmpty then throw Err.unsupported else pure x | none => throw Err.unsupported
   let ts ← d.ptypes.mapM (fun kv => writeParameterType u kv.2)
   let ps := d.params.map (fun kv => writeParameter u kv.2)
   let cs ← d.containers.mapM (fun kv => writeContainer u kv.2)
